@@ -127,7 +127,12 @@ def variable_names(toks):
                         break
                 elif (depth == 1 and t == 'IDENT' and i + 1 < n and toks[i + 1][1] == ':'
                       and (toks[i - 1][1] in ('{', ';') or toks[i - 1][0] == 'COMMENT')):
-                    names.append(v)
+                    # a name declared again keeps its first place and takes the later spelling (and value)
+                    again = [k for k, old in enumerate(names) if norm(old) == norm(v)]
+                    if again:
+                        names[again[0]] = v
+                    else:
+                        names.append(v)
                 i += 1
             out.append(names)
         i += 1
